@@ -151,7 +151,7 @@ def units(tier):
 
 META = {
     "level": "proof",
-    "explanation": "Shape/index contracts of the Eigen-backed dense kernels for every shape; numerical values, sparse storage, decompositions and thread-count independence are not decidable here.",
+    "explanation": "Shape/index contracts of the Eigen-backed dense kernels and sparse product kernels for every shape; numerical values, sparse storage, decompositions and thread-count independence are not decidable here.",
     "trusted_base": ["CBMC 6.11 C++ front end", "Eigen (numerics)", "stub classes"],
     "assumptions": [],
     "not_covered": ["values computed by Eigen/csparse", "csparse storage of MatrixSparse and its non-product methods", "Cholesky / eigen-decomposition", "thread-count independence (no thread model)",
@@ -159,7 +159,7 @@ META = {
 }
 MANIFEST = {
     "category": "proof",
-    "text": "Dimension-typing contracts on the Eigen-backed kernels of AMatrixDense: loop-free, hence for every matrix shape; values are not claimed.",
+    "text": "Dimension-typing contracts on the Eigen-backed kernels of AMatrixDense (18 methods) and on the Eigen-storage product kernels of MatrixSparse (9 methods): loop-free, hence for every matrix shape and both transposition flags; values are not claimed.",
     "note": "Trusted: Eigen preconditions as documented; numerical results N/A.",
     "design_ref": "DESIGN.md 3 C11",
 }
